@@ -1,4 +1,5 @@
 """C14 - WFQ and VirtualClock transmit in virtual-finish-stamp order."""
+from vlib.util import guarded_leg
 import random, collections, json
 from fractions import Fraction
 from harness.stamp import gen_case, replay, expected_stamps, order_oracle, start_oracle, first_diff
@@ -112,6 +113,7 @@ def oracle(c, run):
 
 
 # ---- BEGIN vck leg: VC as processes on the kernel MODEL (lean/OnlVerif/Net/VCOnK.lean, driver mode `vck`) ----
+@guarded_leg(None)
 def run_vck(ctx, res=None):
     """Extra leg for Props/C14K.lean: the K program of the VirtualClock scheduler (put / send_packet / run + a source process),
     run at Float by the compiled driver, against the real VC with a real source process on the real kernel under env.run()
@@ -370,6 +372,7 @@ def run_vck(ctx, res=None):
 
 
 # ---- BEGIN wfqk leg: WFQ as processes on the kernel MODEL (lean/OnlVerif/Net/WFQOnK.lean, driver mode `wfqk`) ----
+@guarded_leg(None)
 def run_wfqk(ctx, res=None):
     """Extra leg for Props/C14KWfqExamples.lean: the K program of the WFQ scheduler (put / update_vtime / reset_vtime / send_packet /
     run with its bookkeeping + a source process), run at Float by the compiled driver, against the real WFQ with a real source
